@@ -117,7 +117,9 @@ impl<'h> FindMatchesImpl<'h> {
     /// being returned.
     pub(crate) fn peek_n(&mut self, n: usize) -> PeekResult {
         let mut char_indices = self.char_indices.clone();
-        let mut matches = Vec::with_capacity(n);
+        // `n` is only an upper bound (e.g. `usize::MAX` to peek at everything that is left): do
+        // not reserve memory for `n` matches up front.
+        let mut matches = Vec::with_capacity(n.min(32));
         let mut mode_switch = false;
         let mut new_mode = 0;
         while matches.len() < n {
